@@ -1032,6 +1032,7 @@ class Main(Unit):
                         "option --%s sets exactly Config.%s" % (opt.replace('_', '-'), fld))
             sev = ns['severities']
             wantsev = [T('severityGroupValues')[x] for x in (sev or [])]
+            P.prove(isinstance(field(cfg, 'severities'), list), "Config.severities is a list (every PEL of the run is tested against it)")
             P.prove(list(field(cfg, 'severities')) == wantsev, "--severities maps the chosen group names to their digits")
         if out.returned:
             P.prove(acts == [] and ns['file'] is None, "main returns (instead of exiting) only when no mode was selected")
@@ -1853,3 +1854,49 @@ class BmcN(_ModeUnitN):
 
 
 UNITS_N = [CountN, AllPelsN, ListN, PlidN, SrcN, IdN, BmcN, DeleteOneN, DeleteAllN, GetFileListN]
+
+
+
+# ------------------------------------------------------------------ C12: -f --hex --clean with a failing stdout
+class CHexdumpTwoLines(Contract):
+    """hexdump through its contract, with two representative lines (every line is printed by the same statement)"""
+    target = "pel.hexdump.hexdump"
+
+    def model(self, it, data, bytes_per_line=16, bytes_per_chunk=4):
+        return [mkstr([Opq(ufun('hex_line', z3.IntSort(), PyStr)(I(0)))]), mkstr([Opq(ufun('hex_line', z3.IntSort(), PyStr)(I(1)))])]
+
+
+class PrintFileFaults(Unit):
+    """parseAndPrintPELFile with a stdout that may fail at any print (EPIPE/ENOSPC): it reports 'displayed' only if
+    every print of the document / of the hex display succeeded"""
+    prop = "C12"
+    name = "parseAndPrintPELFile with failing stdout"
+    target = PM + "parseAndPrintPELFile"
+    contracts = [CParsePEL, CHexdumpTwoLines]
+    io_faults = False
+
+    def setup_ctx(self, ctx):
+        ctx.stdout_faults = True
+
+    def inputs(self, S):
+        self._d = Dir(1)
+        self.env = FsEnv(self._d)
+        return dict(file_path=self._d.path(0), config=mk_config(S), exit_on_error=S.bool("exit_on_error"))
+
+    def check(self, P, inp, old, out):
+        if not P.symbolic:
+            return
+        ctx = P.ctx
+        if not out.returned:
+            P.prove(out.exc_class is SystemExit, "the only way out other than returning is SystemExit")
+            return
+        failed = any(e == ('fail',) for e in ctx.stdout)
+        if failed:
+            P.prove(out.value is False or out.value is None, "a failed print means 'not displayed' (so --clean keeps the file)")
+        k = key_of(self._d.contents[0])
+        if out.value is True:
+            P.prove(ctx.is_true(z3.And(hdr_ok(k), sel(k), decodes(k))) and not failed,
+                    "'displayed' is reported only for a decoded, selected PEL whose output was written completely")
+
+
+UNITS_C12 = [WriteOutput, PrintFileFaults]
